@@ -344,7 +344,7 @@ def run(chk, tier):
     mixed = ["line", "braces", "line", "piled", "line", "paren", "line"]
     if tier == "quick":
         # (programs, max top-level forms, maxbad, catalogue entries drawn (None = all), forced catalogue kinds)
-        groups = [(8, 6, 1, None, ()), (2, 5, 2, 3, ("syntax", "shadow"))]
+        groups = [(10, 6, 1, None, ()), (3, 5, 2, 3, ("syntax", "shadow"))]
         vev, layouts = 5, mixed
     else:
         groups = [(110, 8, 1, None, ()), (20, 6, 2, 5, ("syntax", "shadow")), (2, 3, 2, None, ())]
